@@ -202,6 +202,85 @@ def assign_wild(shape: int, n: int, v: int, a: int, b: int) -> bool:
     return order == [id(k) for k in hit] or fail(why='order', order=order)
 
 
+def _mk_parent(kind, v):
+    if kind == 0:
+        return [v, v + 1]
+    if kind == 1:
+        return {'0': v, 'k': v + 1}
+    if kind == 2:
+        return Obj(k=v, z=1)
+    return {'k': v}
+
+
+def assign_reuse(k1: int, k2: int, seg: int, style: int, v: int, w: int) -> bool:
+    """ONE Assign spec object applied to parents of different kinds in successive calls"""
+    start()
+    k1, k2, seg = concretize(k1, 0, 3), concretize(k2, 0, 3), concretize(seg, 0, 1)
+    if k1 is OUT or k2 is OUT or seg is OUT:
+        return True
+    name = ['0', 'k'][seg]
+    path, steps = spell(['p', name], [0, 1][style])
+    spec = Assign(path, v)
+    for kind in (k1, k2):
+        t = {'p': _mk_parent(kind, w), 'z': [1]}
+        snap = plain(t)
+        exp = ref_assign(t, steps, v, None)
+        got = run(lambda: glom(t, spec, glom_debug=True))
+        if exp[0] == 'ok':
+            if got.kind != 'ok' or plain(t) != exp[1]:
+                return fail(why='re-used Assign spec: effect differs from plain assignment', kind=kind, got=got, t=t, exp=exp[1])
+        elif got.kind != 'err' or plain(t) != snap:
+            return fail(why='re-used Assign spec: expected an error and an unchanged target', kind=kind, got=got, t=t)
+    reach('reuse')
+    if k1 != k2:
+        reach('reuse_mixed')
+    return True
+
+
+def assign_wild_mixed(k0: int, k1: int, k2: int, seg: int, v: int, w: int) -> bool:
+    """a wildcard whose matches are parents of different kinds: plain assignment at every match"""
+    start()
+    k0, k1, k2, seg = concretize(k0, 0, 3), concretize(k1, 0, 3), concretize(k2, 0, 3), concretize(seg, 0, 1)
+    if OUT in (k0, k1, k2, seg):
+        return True
+    name = ['0', 'k'][seg]
+    rows = [_mk_parent(k, w + i) for i, k in enumerate((k0, k1, k2))]
+    exp_rows = []
+    failed = False
+    for i, k in enumerate((k0, k1, k2)):
+        res = ref_assign({'r': _mk_parent(k, w + i)}, [('P', 'r'), ('P', name)], v, None)
+        if res[0] != 'ok':
+            failed = True
+            break
+        exp_rows.append(res[1]['r'])
+    t = {'rows': rows}
+    got = run(lambda: glom(t, Assign('rows.*.' + name, v), glom_debug=True))
+    reach('wild_mixed')
+    if failed:
+        return got.kind == 'err' or fail(why='assignment impossible at one match must raise', got=got)
+    return (got.kind == 'ok' and plain(rows) == plain(exp_rows)) or fail(why='wildcard assign over mixed parents', rows=rows, exp=exp_rows, got=got)
+
+
+def assign_wild3(shape: int, v: int, a: int) -> bool:
+    """three wildcards in the destination path"""
+    start()
+    leaf = lambda: {'d': a}
+    if shape == 0:
+        t = {'a': [{'b': [{'c': [leaf(), leaf()]}]}, {'b': [{'c': [leaf()]}]}]}
+        path, hits = 'a.*.b.*.c.*.d', [t['a'][0]['b'][0]['c'][0], t['a'][0]['b'][0]['c'][1], t['a'][1]['b'][0]['c'][0]]
+    else:
+        t = [[[[a, 0], [a, 1]], [[a, 2]]], [[[a, 3]]]]
+        path, hits = '*.*.*.0', None
+    got = run(lambda: glom(t, Assign(path, v), glom_debug=True))
+    reach('wild3')
+    if got.kind != 'ok':
+        return fail(why='three-wildcard assign failed', got=got)
+    if hits is not None:
+        return all(h['d'] == v for h in hits) or fail(why='not every match assigned', t=t)
+    flat = [x for p in t for q in p for x in q]
+    return all(x[0] == v for x in flat) or fail(why='not every match assigned', t=t)
+
+
 def assign_values(which: int, v: int, w: int) -> bool:
     """values: Spec / T of the target, containers (rebuilt, same type), self-referential containers"""
     start()
@@ -237,6 +316,15 @@ def assign_values(which: int, v: int, w: int) -> bool:
         before = copy.deepcopy(t)
         assign(t, 'dst.x', t)
         ok = t['dst']['x'] == before or t['dst']['x'] is t
+    elif which == 8:     # Spec value together with missing= backfill: the value is the ORIGINAL target's
+        assign(t, 'new.x.y', Spec('src.n'), missing=dict)
+        ok = t['new'] == {'x': {'y': v}}
+    elif which == 9:     # T value together with missing= backfill
+        assign(t, 'dst.p.q', T['src'], missing=dict)
+        ok = t['dst']['p']['q'] == t['src'] and t['dst']['p']['q'] == {'n': v}     # (rebuilt by argument mode on the backfill path)
+    elif which == 10:    # S-expression value with backfill
+        glom(t, (S(val=T['src']['n']), Assign('new2.a', S['val'], missing=dict)), glom_debug=True)
+        ok = t['new2'] == {'a': v}
     else:
         glom(t, (S(acc=Val({})), Assign(S['acc']['y'], T['src']['n']), Assign('dst.x', S['acc'])), glom_debug=True)
         ok = t['dst']['x'] == {'y': v}
@@ -303,7 +391,11 @@ def obligations(tier):
     obs.append(Ob(assign_attach_last, pre='0 <= depth_present <= 3 and 0 <= style <= 2', name='assign_attach_last'))
     for shape in range(5):
         obs.append(Ob(assign_wild, fixed={'shape': shape}, pre='1 <= n <= 3', name='assign_wild_%d' % shape))
-    obs.append(Ob(assign_values, pre='0 <= which <= 7', name='assign_values'))
+    obs.append(Ob(assign_values, pre='0 <= which <= 11', name='assign_values'))
+    for k1 in range(4):
+        obs.append(Ob(assign_reuse, fixed={'k1': k1}, pre='0 <= k2 <= 3 and 0 <= seg <= 1 and 0 <= style <= 1', name='assign_reuse_%d' % k1))
+        obs.append(Ob(assign_wild_mixed, fixed={'k0': k1}, pre='0 <= k1 <= 3 and 0 <= k2 <= 3 and 0 <= seg <= 1', name='assign_wild_mixed_%d' % k1))
+    obs.append(Ob(assign_wild3, pre='0 <= shape <= 1', name='assign_wild3'))
     obs.append(Ob(assign_fn, pre='0 <= which <= 3 and len(xs) <= 2', name='assign_fn'))
     # twins
     tp = '0 <= c0 < 5 and 0 <= c1 < 5 and 0 <= mkind <= 3'
@@ -313,4 +405,5 @@ def obligations(tier):
     obs.append(Ob(assign_path, fixed=fx, pre=tp, twin='assign_created', name='assign_path_dicts'))
     obs.append(Ob(assign_list_idx, fixed={'style': 0, 'nested': False}, pre='len(xs) <= 3', twin='idx_err', name='assign_list_idx'))
     obs.append(Ob(assign_wild, fixed={'shape': 0}, pre='1 <= n <= 3', twin='wild_many', name='assign_wild_0'))
+    obs.append(Ob(assign_reuse, fixed={'k1': 0}, pre='0 <= k2 <= 3 and 0 <= seg <= 1 and 0 <= style <= 1', twin='reuse_mixed', name='assign_reuse_0'))
     return obs
